@@ -648,9 +648,11 @@ def pred_rot(ctx, c, ra, dec, exp_ra=None, exp_dec=None):
                               f'sep(rot(reco),src)={got!r} sep(reco,true)={want!r}', case=c, impl=[ra, dec], model=want,
                               predicate='sep(R reco, source) == sep(reco, true)')
         else:
-            # nearly identical true/source: the rotation angle is < 2e-7, so nothing can move by more than that
+            # nearly identical true/source: the rotation angle is tiny, so nothing can move by more than that.  On doubles the
+            # angle is arccos of a cosine within a few ulp of 1, i.e. quantised in steps of sqrt(2 ulp) = 1.5e-8:
+            # alpha_float <= sqrt(alpha^2 + 16 eps)
             ctx.count('rot:near-identity-zone')
-            if abs(got - want) > 2.5 * ang12 + 64 * EPS / max(math.cos(dec), 3e-8) + 1e-15:
+            if abs(got - want) > 2.5 * math.sqrt(ang12 ** 2 + 16 * EPS) + 64 * EPS / max(math.cos(dec), 3e-8) + 1e-15:
                 ctx.violation(site, 'separation-not-preserved', f'sep(rot(reco),src)={got!r} sep(reco,true)={want!r} '
                               f'(true-source angle {ang12:.3g})', case=c, impl=[ra, dec], model=want,
                               predicate='sep(R reco, source) == sep(reco, true)')
@@ -883,7 +885,8 @@ def compare(ctx, checks, outs):
                 ang12 = c.get('ang12', PI)
                 if ang12 > PI - 2e-7:
                     ctx.count('corr:rot-antipodal-zone')      # different libm -> different noise axis; see pred_rot
-                elif vincenty(imp[0], imp[1], m[0], m[1]) > 4 * ang12 + 128 * EPS / max(math.cos(m[1]), 3e-8) + 1e-14:
+                elif vincenty(imp[0], imp[1], m[0], m[1]) > (4 * math.sqrt(ang12 ** 2 + 16 * EPS)
+                                                             + 128 * EPS / max(math.cos(m[1]), 3e-8) + 1e-14):
                     ctx.disagree('coords.rot', c, imp, m, 'directions differ in the near-identity zone')
                 continue
             # compare as directions: dec through asin (ill-conditioned at the poles), ra through atan2
